@@ -515,115 +515,170 @@ def rule_G6(prog):
 
 
 # ------------------------------------------------------------------ G7: only an Equal op absorbs equal items
+_EQ_RE = None
+
+
+def _mentions_equal(src):
+    import re as _re
+    return bool(_re.search(r"DiffTag::Equal\b", src or ""))
+
+
+def _backward_calls(m, local, depth=8, seen=None, out=None):
+    """Calls (block, terminator) in the backward slice of `local` (through assignments, aggregates and call arguments)."""
+    seen = set() if seen is None else seen
+    out = [] if out is None else out
+    if local in seen or depth <= 0:
+        return out
+    seen.add(local)
+
+    def op_locals(op):
+        if op.get("k") in ("copy", "move"):
+            return [op["p"]["l"]] + [e["index"] for e in op["p"]["proj"] if isinstance(e, dict) and "index" in e]
+        return []
+    for bb, i_, kind, payload in m.defs().get(local, []):
+        if kind == "call":
+            out.append((bb, payload))
+            for a in payload["args"]:
+                for l2 in op_locals(a):
+                    _backward_calls(m, l2, depth - 1, seen, out)
+        else:
+            rv = payload
+            k = rv["k"]
+            ls = []
+            if k in ("use", "cast", "repeat"):
+                ls = op_locals(rv["op"])
+            elif k == "unop":
+                ls = op_locals(rv["x"])
+            elif k == "binop":
+                ls = op_locals(rv["l"]) + op_locals(rv["r"])
+            elif k == "aggregate":
+                for o in rv["ops"]:
+                    ls += op_locals(o)
+            elif k in ("ref", "discr", "rawptr"):
+                ls = [rv["p"]["l"]] + [e["index"] for e in rv["p"]["proj"] if isinstance(e, dict) and "index" in e]
+            for l2 in ls:
+                _backward_calls(m, l2, depth - 1, seen, out)
+    # stores into parts of the local (`_x.0 = ..`) are not definitions in m.defs(); fine for conditions
+    return out
+
+
+def _fn_tests_tag_equal(prog, g, want_idx_of_param=None):
+    """Does the body of `g` (a closure or a small helper) read the tag of an op and compare it with DiffTag::Equal?
+    With `want_idx_of_param` = (param local, idx linear form of the caller's argument, caller idx) the op must be
+    ops[param + k] with the same offset k the caller's element has relative to the argument."""
+    m = g.mir
+    if m is None:
+        return False
+    tags = [(bb, t) for bb, t in m.calls() if (m.callee(t) or {}).get("path") == "types::DiffOp::tag"]
+    if not tags:
+        return False
+    eq = any(_mentions_equal(t.get("src")) for _, t in m.calls()) 
+    if not eq:
+        # a `match op.tag() { DiffTag::Equal => true, _ => false }`: a switch on the tag's discriminant
+        tag_adt = prog.adts.get("types::DiffTag")
+        eq_idx = [str(i) for i, v in enumerate(tag_adt["variants"]) if v["name"] == "Equal"] if tag_adt else []
+        for blk in m.blocks:
+            t = blk["term"]
+            if t["k"] == "switch" and (t.get("discr_ty") or "") == "isize" and eq_idx and eq_idx[0] in t["values"]:
+                eq = True
+    if not eq:
+        return False
+    if want_idx_of_param is None:
+        return True
+    from .facts import term_str
+    plocal, arg_lin, idx = want_idx_of_param
+    pname = m.local_name(plocal) or ("_%d" % plocal)
+    pkey = term_str(("local", pname, plocal))
+    for bb, t in tags:
+        ei = _elem_index_of(m, m.resolve_operand(t["args"][0]))
+        if ei is None:
+            continue
+        # ei is in terms of the helper's parameter; the caller's idx must be  arg + (ei - param)
+        off = dict(ei)
+        if off.get(pkey) != 1:
+            continue
+        off.pop(pkey)
+        want = dict(arg_lin)
+        for k, v in off.items():
+            want[k] = want.get(k, 0) + v
+        want = {k: v for k, v in want.items() if v}
+        if want == idx:
+            return True
+    return False
+
+
 def _tag_evidence(prog, m, idx, bb):
-    """Is the call block `bb` dominated by the Equal edge of a test of the tag of ops[idx]?  Recognised tests:
-    `if let Some(DiffTag::Equal) = <ops.get(idx) | idx.checked_sub(1).and_then(..)>.map(|x| x.tag())`, and a switch on
-    the discriminant of `ops[idx].tag()` (directly, through a local copy of the op, or as a component of a tuple)."""
+    """Is the call block `bb` dominated by the taken edge of a condition that reads the tag of ops[idx] and compares it
+    with DiffTag::Equal?  The condition may be an `if let Some(DiffTag::Equal) = ..get(idx).map(|x| x.tag())`, a boolean
+    computed with `==`, `matches!`, `map_or`, a `match` producing an Option<DiffTag>, or a small helper
+    (`follows_equal(ops, pointer)`): what counts is the backward slice of the switch's discriminant."""
+    from .facts import term_str
     tag_adt = prog.adts.get("types::DiffTag")
     eq_idx = None
     if tag_adt:
         for i, v in enumerate(tag_adt["variants"]):
             if v["name"] == "Equal":
                 eq_idx = str(i)
-    if eq_idx is None:
-        return False
-    import re as _re
-    # (c) a boolean flag: `let is_eq = match ops.get(j) { Some(op) => op.tag() == DiffTag::Equal, None => false }; if is_eq {..}`
     for b2, blk in enumerate(m.blocks):
         t = blk["term"]
-        if t["k"] != "switch" or t["values"] != ["0"] or t.get("discr_ty") != "bool":
-            continue
-        tgt = t["otherwise"]
-        if not (tgt == bb or m.dominates(tgt, bb)):
+        if t["k"] != "switch":
             continue
         d = t["discr"]
-        if d.get("k") not in ("copy", "move") or d["p"]["proj"]:
+        if d.get("k") not in ("copy", "move"):
             continue
-        l = d["p"]["l"]
-        for _ in range(3):
-            sd = m.single_def(l)
-            if sd and sd[2] == "assign" and sd[3]["k"] == "use" and sd[3]["op"].get("k") in ("copy", "move") and not sd[3]["op"]["p"]["proj"]:
-                l = sd[3]["op"]["p"]["l"]
-            else:
-                break
-        defs = m.defs().get(l, [])
-        good = bool(defs)
-        saw_eq = False
-        for bbd, i_, kind, payload in defs:
-            if kind == "assign":
-                rv = payload
-                if rv["k"] == "use" and rv["op"].get("k") == "const" and rv["op"].get("val") == "false":
-                    continue
-                good = False
-            else:
-                cal = m.callee(payload) or {}
-                src = payload.get("src", "") or ""
-                a0 = m.resolve_operand(payload["args"][0]) if payload["args"] else None
-                while isinstance(a0, tuple) and a0 and a0[0] in ("ref", "deref"):
-                    a0 = a0[1]
-                if "PartialEq" in cal.get("path", "") and cal.get("path", "").endswith("::eq") and \
-                        _re.search(r"==\s*(\w+::)*DiffTag::Equal\b|DiffTag::Equal\s*==", src) and \
-                        isinstance(a0, tuple) and a0 and a0[0] == "call" and a0[1] == "types::DiffOp::tag" and a0[2] and \
-                        _elem_index_of(m, a0[2][0]) == idx:
-                    saw_eq = True
-                    continue
-                # `ops.get(j).map_or(false, |op| op.tag() == DiffTag::Equal)` / `.is_some_and(..)`
-                cp = cal.get("path", "")
-                if (cp.endswith("Option::<T>::map_or") or cp.endswith("Option::<T>::is_some_and")) and payload["args"] and \
-                        _elem_index_of(m, m.resolve_operand(payload["args"][0])) == idx:
-                    dflt_ok = True
-                    if cp.endswith("map_or"):
-                        d0 = payload["args"][1]
-                        dflt_ok = d0.get("k") == "const" and d0.get("val") == "false"
-                    clos_ok = False
-                    for g in prog.fn_list:
-                        if g.kind == "Closure" and g.mir and g.path.startswith(m.fn.path + "::{closure") and \
-                                abs((g.line or 0) - payload["line"]) <= 4:
-                            tags = [t3 for _, t3 in g.mir.calls() if (g.mir.callee(t3) or {}).get("path") == "types::DiffOp::tag"]
-                            eqs = [t3 for _, t3 in g.mir.calls() if "PartialEq" in (g.mir.callee(t3) or {}).get("path", "") and
-                                   _re.search(r"==\s*(\w+::)*DiffTag::Equal\b|DiffTag::Equal\s*==", t3.get("src", "") or "")]
-                            if tags and eqs:
-                                clos_ok = True
-                    if dflt_ok and clos_ok:
-                        saw_eq = True
+        # which edges lead (exclusively) to the call?
+        edges = [(v, tg) for v, tg in zip(t["values"], t["targets"])] + [("otherwise", t["otherwise"])]
+        taken = [(v, tg) for v, tg in edges if tg == bb or m.dominates(tg, bb)]
+        if not taken or len(taken) == len(edges):
+            continue
+        calls = _backward_calls(m, d["p"]["l"])
+        # is the discriminant a DiffTag discriminant?  then the taken edge must be the Equal one
+        sd = m.single_def(d["p"]["l"]) if not d["p"]["proj"] else None
+        tag_switch = False
+        if sd and sd[2] == "assign" and sd[3]["k"] == "discr":
+            pl = sd[3]["p"]
+            ty = m.local_ty_str(pl["l"]) or ""
+            last_ty = None
+            for e in pl["proj"]:
+                if isinstance(e, dict) and "field" in e:
+                    last_ty = e.get("ty")
+            tstr = last_ty or ty
+            if "DiffTag" in (tstr or "") and "Option" not in (tstr or ""):
+                tag_switch = True
+        equal_ok = False
+        if tag_switch:
+            equal_ok = any(v == eq_idx for v, _ in taken)
+        elif (t.get("discr_ty") or "") == "bool":
+            equal_ok = any(v == "otherwise" for v, _ in taken) and t["values"] == ["0"]
+        has_tag = False
+        has_eq_text = tag_switch
+        for cb, ct in calls:
+            c = m.callee(ct) or {}
+            path = c.get("path", "")
+            if _mentions_equal(ct.get("src")):
+                has_eq_text = True
+            if path == "types::DiffOp::tag" and ct["args"] and _elem_index_of(m, m.resolve_operand(ct["args"][0])) == idx:
+                has_tag = True
+            if path.endswith(("Option::<T>::map", "Option::<T>::map_or", "Option::<T>::is_some_and", "Option::<T>::and_then",
+                              "Option::<T>::filter")) and ct["args"] and _elem_index_of(m, m.resolve_operand(ct["args"][0])) == idx:
+                for g in prog.fn_list:
+                    if g.kind == "Closure" and g.mir and g.path.startswith(m.fn.path + "::{closure") and \
+                            abs((g.line or 0) - ct["line"]) <= 4:
+                        if any((g.mir.callee(t3) or {}).get("path") == "types::DiffOp::tag" for _, t3 in g.mir.calls()):
+                            has_tag = True
+                        if _fn_tests_tag_equal(prog, g):
+                            has_eq_text = True
+            h = prog.fn(path) if c.get("local") else None
+            if h is not None and h.mir is not None and h is not m.fn:
+                for pi, a in enumerate(ct["args"]):
+                    if m.local_ty_str(a["p"]["l"]) != "usize" if a.get("k") in ("copy", "move") else True:
                         continue
-                good = False
-        if good and saw_eq:
+                    arg_lin = _lin_idx(m, m.resolve_operand(a))
+                    if _fn_tests_tag_equal(prog, h, (pi + 1, arg_lin, idx)):
+                        has_tag = True
+                        has_eq_text = True
+        if has_tag and has_eq_text and equal_ok:
             return True
-    for b2, blk in enumerate(m.blocks):
-        t = blk["term"]
-        if t["k"] != "switch" or eq_idx not in t["values"]:
-            continue
-        tgt = t["targets"][t["values"].index(eq_idx)]
-        if not (tgt == bb or m.dominates(tgt, bb)):
-            continue
-        d = t["discr"]
-        if d.get("k") not in ("copy", "move") or d["p"]["proj"]:
-            continue
-        sd = m.single_def(d["p"]["l"])
-        if not sd or sd[2] != "assign" or sd[3]["k"] != "discr":
-            continue
-        place = sd[3]["p"]
-        term = m.resolve_place(place)
-        # peel `(X as Some).0` and tuple components down to the call that produced the tag
-        cur = term
-        for _ in range(6):
-            if isinstance(cur, tuple) and cur and cur[0] == "field" and isinstance(cur[1], tuple) and cur[1] and cur[1][0] == "downcast":
-                cur = cur[1][1]
-            elif isinstance(cur, tuple) and cur and cur[0] in ("deref", "ref"):
-                cur = cur[1]
-            elif isinstance(cur, tuple) and cur and cur[0] == "local":
-                e = m.expand(cur, depth=1)
-                if e == cur:
-                    break
-                cur = e
-            else:
-                break
-        if isinstance(cur, tuple) and cur and cur[0] == "call":
-            if cur[1].endswith("Option::<T>::map") and _elem_index_of(m, cur) == idx:
-                return True
-            if cur[1] == "types::DiffOp::tag" and cur[2] and _elem_index_of(m, cur[2][0]) == idx:
-                return True
     return False
 
 
@@ -665,12 +720,34 @@ def rule_G8(prog):
                          "writes in place belongs to an Equal op; what it pushes into a group is either such a freshly cut "
                          "Equal piece or the iterated op itself; and every iteration of its loop over the ops pushes (no op is "
                          "skipped)")
+    def helpers_of(fn, depth=2, seen=None):
+        seen = set() if seen is None else seen
+        out = []
+        if depth <= 0 or not fn.mir:
+            return out
+        for bb, t in fn.mir.calls():
+            c = fn.mir.callee(t) or {}
+            g = prog.fn(c.get("path", "")) if c.get("local") and not c.get("trait") else None
+            if g is not None and g.mir and g.path not in seen and g is not fn and g.module == fn.module:
+                seen.add(g.path)
+                out.append(g)
+                out += helpers_of(g, depth - 1, seen)
+        return out
+
+    def only_cuts_equal(g):
+        ags = [s_["rv"] for b in g.mir.blocks for s_ in b["stmts"]
+               if s_["k"] == "assign" and s_["rv"]["k"] == "aggregate" and s_["rv"].get("adt") == DIFFOP]
+        return bool(ags) and all(a["variant"] == "Equal" for a in ags)
+
     for fn in prog.find("common::group_diff_ops"):
         m = fn.mir
         r.instances += 1
         problems = []
         n_aggr = n_store = n_push = 0
-        for i, b in enumerate(m.blocks):
+        bodies = [fn] + helpers_of(fn)
+        for body_fn in bodies:
+          bm = body_fn.mir
+          for i, b in enumerate(bm.blocks):
             if b["cleanup"]:
                 continue
             for s_ in b["stmts"]:
@@ -685,7 +762,7 @@ def rule_G8(prog):
                     if not place:
                         continue
                     downs = [e["downcast"] for e in place["proj"] if isinstance(e, dict) and "downcast" in e]
-                    tys = m.local_ty_str(place["l"]) or ""
+                    tys = bm.local_ty_str(place["l"]) or ""
                     if downs and ("DiffOp" in tys) and "deref" in place["proj"]:
                         n_store += 1
                         if any(d not in ("Equal", "Some") for d in downs):
@@ -703,20 +780,38 @@ def rule_G8(prog):
             n_push += 1
             push_blocks.append(bb)
             term = m.resolve_operand(a)
-            ok = False
-            if isinstance(term, tuple) and term and term[0] == "aggregate" and term[1].endswith("DiffOp::Equal"):
-                ok = True
-            if isinstance(term, tuple) and term and term[0] == "local":
-                # the loop variable: bound from the Some payload of IntoIter::next, never reassigned
-                ds = m.defs().get(term[2], [])
-                if len(ds) == 1 and ds[0][2] == "assign":
-                    src = m.resolve_rvalue(ds[0][3])
-                    if isinstance(src, tuple) and src and src[0] == "field" and isinstance(src[1], tuple) and src[1][0] == "downcast":
-                        inner = src[1][1]
-                        e = m.expand(inner, depth=2) if isinstance(inner, tuple) else inner
-                        if isinstance(e, tuple) and e and e[0] == "call" and "Iterator>::next" in (e[1] + ">::next") or \
-                                (isinstance(e, tuple) and e and e[0] == "call" and e[1].endswith("::next")):
-                            ok = True
+
+            def passes_through(tm, depth=0):
+                """A freshly cut Equal, or (a copy of) the op the loop is iterating over."""
+                if not isinstance(tm, tuple) or not tm or depth > 5:
+                    return False
+                if tm[0] == "aggregate":
+                    return tm[1].endswith("DiffOp::Equal")
+                if tm[0] in ("ref", "deref"):
+                    return passes_through(tm[1], depth + 1)
+                if tm[0] == "field" and isinstance(tm[1], tuple) and tm[1] and tm[1][0] == "downcast" and str(tm[1][2]) == "Some":
+                    inner = tm[1][1]
+                    e = m.expand(inner, depth=2) if isinstance(inner, tuple) else inner
+                    return isinstance(e, tuple) and bool(e) and e[0] == "call" and e[1].endswith("::next")
+                if tm[0] == "call":
+                    # a cutting helper: constructs DiffOp values, all of them Equal (`split_equal_context(..)`)
+                    g = prog.fn(tm[1])
+                    return g is not None and g.mir is not None and only_cuts_equal(g)
+                if tm[0] == "field" and isinstance(tm[1], tuple) and tm[1]:
+                    return passes_through(tm[1], depth + 1) if tm[1][0] in ("call", "local") else False
+                if tm[0] == "local" and isinstance(tm[2], int) and tm[2] > m.arg_count:
+                    ds = m.defs().get(tm[2], [])
+                    # every definition must pass (a local assigned in several match arms)
+                    ok_all = bool(ds)
+                    for d_ in ds:
+                        if d_[2] == "assign":
+                            ok_all = ok_all and passes_through(m.resolve_rvalue(d_[3]), depth + 1)
+                        else:
+                            cal = m.callee(d_[3]) or {}
+                            ok_all = ok_all and passes_through(("call", cal.get("path", "?")), depth + 1)
+                    return ok_all
+                return False
+            ok = passes_through(term)
             if not ok:
                 problems.append("pushes `%s` (line %d), which is neither the iterated op nor a freshly cut Equal" % (
                     t.get("src", "?")[:60], t["line"]))
